@@ -9,6 +9,7 @@ package main
 import (
 	"fmt"
 	"go/token"
+	"go/types"
 	"os"
 	"sort"
 	"strings"
@@ -419,4 +420,96 @@ func capturesParam(fn *ssa.Function, prm *ssa.Parameter) bool {
 		}
 	}
 	return false
+}
+
+// ruleKeyGlobals — R-KEY/globals: a package-level option (an exported variable of a basic type of the module, which a user
+// may change between two uses) that the construction of the cached value reads must be part of the key: the key
+// constructor stores it into a field of the key object and the equality function reads that field.
+func ruleKeyGlobals(p *Prog, r *Report, c keyFieldsCfg, ctorRecv, ctor string) {
+	const rule = "R-KEY/globals"
+	initF := p.Func(c.pkg, c.initRecv, c.initFn)
+	eqF := p.Func(c.pkg, c.eqRecv, c.eqFn)
+	build := p.Func(c.pkg, ctorRecv, ctor)
+	reach := reachableFns(p, []*ssa.Function{build})
+	isOption := func(g *ssa.Global) bool {
+		if g.Pkg == nil || !p.inModule(g.Pkg.Pkg) || !g.Object().Exported() {
+			return false
+		}
+		_, basic := deref(g.Type()).Underlying().(*types.Basic)
+		return basic
+	}
+	read := map[*ssa.Global]ssa.Instruction{}
+	var fns []*ssa.Function
+	for f := range reach {
+		fns = append(fns, f)
+	}
+	sort.Slice(fns, func(i, j int) bool { return p.FnName(fns[i]) < p.FnName(fns[j]) })
+	for _, f := range fns {
+		for _, b := range f.Blocks {
+			for _, in := range b.Instrs {
+				if u, ok := in.(*ssa.UnOp); ok && u.Op == token.MUL {
+					if g, ok := u.X.(*ssa.Global); ok && isOption(g) && read[g] == nil {
+						read[g] = in
+					}
+				}
+			}
+		}
+	}
+	var gs []*ssa.Global
+	for g := range read {
+		gs = append(gs, g)
+	}
+	sort.Slice(gs, func(i, j int) bool { return gs[i].Name() < gs[j].Name() })
+	for _, g := range gs {
+		key := c.pkg + "." + c.cacheRecv + "." + c.cacheFld + "/" + g.Name()
+		r.Instance(rule, key)
+		// the field of the key object that init fills from the option
+		var fld *types.Var
+		for _, b := range initF.Blocks {
+			for _, in := range b.Instrs {
+				st, ok := in.(*ssa.Store)
+				if !ok {
+					continue
+				}
+				ld, ok := stripConv(st.Val).(*ssa.UnOp)
+				if !ok || ld.Op != token.MUL || ld.X != ssa.Value(g) {
+					continue
+				}
+				if f := fieldOf(st.Addr); f != nil {
+					fld = f
+				}
+			}
+		}
+		compared := false
+		if fld != nil {
+			for _, b := range eqF.Blocks {
+				for _, in := range b.Instrs {
+					if bo, ok := in.(*ssa.BinOp); ok && (bo.Op == token.EQL || bo.Op == token.NEQ) {
+						if fieldOf(stripLoad(bo.X)) == fld && fieldOf(stripLoad(bo.Y)) == fld {
+							compared = true
+						}
+					}
+				}
+			}
+		}
+		detail := fmt.Sprintf("the construction of the cached value reads the package option %s (at %s)", g.Name(), p.IPos(read[g]))
+		switch {
+		case fld == nil:
+			r.Bad(rule, key, p.IPos(read[g]), detail+", which "+p.FnName(initF)+" does not record in the key: a cached value built under another setting of the option is returned")
+		case !compared:
+			r.Bad(rule, key, p.IPos(read[g]), detail+"; the key records it in field "+fld.Name()+" but "+p.FnName(eqF)+" does not compare that field")
+		default:
+			r.OK(rule, key, p.IPos(read[g]), detail+"; the key records it in field "+fld.Name()+", which "+p.FnName(eqF)+" compares")
+		}
+	}
+	r.Count("R-KEY/globals options read", len(gs))
+}
+
+// stripLoad: the address a value was loaded from (or the value itself for a Field extraction).
+func stripLoad(v ssa.Value) ssa.Value {
+	v = stripConv(v)
+	if u, ok := v.(*ssa.UnOp); ok && u.Op == token.MUL {
+		return u.X
+	}
+	return v
 }
